@@ -2,6 +2,7 @@
 #include "zh_common.h"
 #include <zck.h>
 #include "zck_private.h"
+#define ZH_RESET_ERR(z) do { free((z)->msg); (z)->msg = NULL; (z)->error_state = 0; } while(0)
 
 int main(void) {
     zck_set_log_level(ZCK_LOG_NONE);
@@ -16,7 +17,7 @@ int main(void) {
             zh_guarded g = zh_guard_alloc(n);
             memcpy(g.p, raw, n);
             free(raw);
-            zck_clear_error(zck); zck->error_state = 0;
+            ZH_RESET_ERR(zck);
             size_t length = cur, v = 0; int iv = 0; int ok;
             int sig;
             zh_jmp_armed = 1;
@@ -47,7 +48,7 @@ int main(void) {
         } else if(sscanf(line, "I %63s", val) == 1) {
             long v = strtol(val, NULL, 10);
             char buf[MAX_COMP_SIZE]; size_t length = 0;
-            zck_clear_error(zck); zck->error_state = 0;
+            ZH_RESET_ERR(zck);
             if(compint_from_int(zck, buf, (int)v, &length)) { zh_puthex(stdout, buf, length); printf("\n"); }
             else printf("NEG\n");
         } else printf("BADCASE\n");
